@@ -921,8 +921,12 @@ def c15_templates(role):
         [{"c": "gate", "what": "proto", "on": 1}, {"c": "in", "p": {"t": "disconnect"}}, {"c": "close", "k": "reason", "code": 0x8b},
          {"c": "gate", "what": "proto", "on": 0}, {"c": "complete", "j": 0, "o": "ok"}],
     ]
+    # ordinary traffic that is answered (PUBACK, and PINGRESP on a server): after any of the initiators above it shows
+    # whether the connection really ended - "writes nothing after its own DISCONNECT"
+    t += [[pub(q=1, id=11)]]
     if role == "server":
         t += [
+            [{"c": "in", "p": {"t": "pingreq"}}],
             [{"c": "arm", "o": "disc"}, {"c": "mark", "e": "app_disc"}, {"c": "in", "p": {"t": "pingreq"}}],
             [{"c": "arm", "o": "disc_with", "code": 0x89}, {"c": "mark", "e": "app_disc"}, {"c": "in", "p": {"t": "pingreq"}}],
             [cause("qos"), pub(q=2, id=5)],
@@ -1016,8 +1020,8 @@ def c15_extra(tier, rnd):
 
 reg(dict(
     name="disc", judge="ProtoJudge", configs=c15_configs, signature=inb_signature, extra_runs=c15_extra,
-    level={}, quota=500, quota_thorough=20000,
-    rule="TLC enumerates every sequence of <= 3 close initiators out of 20 (server) / 15 (client) (incl. a failing and a slow handler for the peer's DISCONNECT with a close() meanwhile): application close / "
+    level={}, quota=650, quota_thorough=20000,
+    rule="TLC enumerates every sequence of <= 3 close initiators out of 22 (server) / 16 (client), two of them ordinary answered traffic, (incl. a failing and a slow handler for the peer's DISCONNECT with a close() meanwhile): application close / "
          "close_with_reason / close_with_no_reason, protocol handler disconnect / disconnect_with, control service "
          "supplying its own DISCONNECT, handler error, peer DISCONNECT without, with a non-zero and with a zero Session Expiry Interval, and the "
          "protocol violations with dedicated codes (QoS, retain, subscription identifiers, topic alias, packet too "
